@@ -43,6 +43,8 @@ ASSUMPTIONS = [
     "flock(2) is exclusive per open file description and released when the descriptor is closed or the process dies; open(O_CREAT) "
     "and unlink are atomic (local POSIX file system)",
     "a yield point before each file-system call does not change the locker's behaviour (calls are the only shared-state accesses)",
+    "the lock descriptor is close-on-exec, i.e. not inherited by target commands (not in the model; tested by the CLI scenario 'holder "
+    "killed while a target command runs')",
     "processes are killed only between calls (a kill inside a system call is equivalent to before or after it for these atomic calls)",
 ]
 
